@@ -14,10 +14,13 @@
     `CompatOkUnion cands f b` (PgProofs/TypingUnion.lean) — `C04_compat_partial_union`;
   * `ExtOk child base` (PgProofs/TypingExtend.lean) — `C04_extend_partial`: the extension lands in
     `CompatOk base c'` with `isCompatible base c'`, containment then follows from compatibility.
+  * `ExtOkUnion env cands f bcs bf` (PgProofs/TypingExtendUnion.lean) — `C04_extend_partial_union`:
+    both unions simple (the complement of the F43 / F125 dispatch condition), candidates in `ExtOk`.
   `C04_*_exclusion_*` show, conjunct by conjunct, that the predicates exclude nothing gratuitous.
 -/
 import PgProofs.Typing
 import PgProofs.TypingExtend
+import PgProofs.TypingExtendUnion
 import PgProofs.TypingUnion
 import PgProofs.TypingDictIdem
 namespace Pg.Typing
@@ -501,6 +504,42 @@ theorem C04_extendSelf_partial (env : Env) (ht : SubTrans env) (child base c' : 
       CompatOk base c' = true := by
   obtain ⟨h1, h2⟩ := extend_ok env child base c' hok h
   exact ⟨fun v hv => compat_sound env ht base c' h2 h1 v hv, h1, h2⟩
+
+/-- **Extension only narrows for `Union` children** (PgProofs/TypingExtendUnion.lean): a non-frozen
+simple union extending a non-frozen simple union — candidates are non-frozen leaves of pairwise
+disjoint value types, on BOTH sides, so that `Union._apply` routes every value to the one candidate
+that can accept it (the complement of the F43 / F125 condition: no `Int` next to a `Float`) — whose
+candidates are each in `ExtOk` with the base candidate `_base_candidate` picks.  Every value the
+extended union accepts is accepted by the base union, and `base.is_compatible(result)`. -/
+theorem C04_extend_partial_union (env : Env) (ht : SubTrans env) (cands : List Spec) (f : Flags)
+    (bcs : List Spec) (bf : Flags) (c' : Spec) (hok : ExtOkUnion env cands f bcs bf = true)
+    (h : extend env (.union cands f) (.union bcs bf) = .ok c') :
+    (∀ v, accepts env c' v = true → accepts env (.union bcs bf) v = true) ∧
+      isCompatible env (.union bcs bf) c' = true :=
+  extend_union_ok env ht cands f bcs bf c' hok h
+
+/-- The simplicity of the BASE union is needed (F125): with `Int(min_value=4)` next to `Float()` the
+base routes the int 1 to its `Int` candidate; without that candidate the pair is inside the class. -/
+theorem C04_extend_exclusion_F125 :
+    let cands : List Spec := [.float none none F0, .str none F0]
+    let bcs : List Spec := [.int (some 4) none F0, .float none none F0, .str none F0]
+    ExtOkUnion env0 cands F0 bcs F0 = false ∧ simpleUnion bcs = false ∧
+    ExtOkUnion env0 cands F0 [.float none none F0, .str none F0] F0 = true ∧
+    (∃ c', extend env0 (.union cands F0) (.union bcs F0) = .ok c' ∧ accepts env0 c' (.int 1) = true) ∧
+    accepts env0 (.union bcs F0) (.int 1) = false := by
+  refine ⟨by decide, by decide, by decide, ⟨_, rfl, by decide⟩, by decide⟩
+
+/-- … and of the CHILD union (F43 on the extended side): `Union([Int(), Float(max_value=0)])` over
+`Union([Float(max_value=0), Str()])`: the `Int` candidate has no base candidate, `extend` raises. -/
+example : ExtOkUnion env0 [.int none none F0, .float none (some ⟨0, 0⟩) F0] F0
+    [.float none (some ⟨0, 0⟩) F0, .str none F0] F0 = false := by decide
+
+/-- Non-vacuity: a nested instance inside the class, with the conclusion instantiated. -/
+def exUC : List Spec := [.list (.int (some 1) none F0) 0 (some 2) F0, .float (some ⟨1, 0⟩) none F0]
+def exUB : List Spec := [.str none F0, .float none (some ⟨9, 0⟩) F0, .list (.int none (some 7) F0) 0 (some 3) F0]
+example : ExtOkUnion env0 exUC F0 exUB ⟨true, .none, false⟩ = true := by decide
+example : extend env0 (.union exUC F0) (.union exUB ⟨true, .none, false⟩) =
+    .ok (.union [.list (.int (some 1) (some 7) F0) 0 (some 2) F0, .float (some ⟨1, 0⟩) (some ⟨9, 0⟩) F0] F0) := by rfl
 
 /-! Each conjunct of `ExtOk` is needed. -/
 
